@@ -67,7 +67,7 @@ theorem fixed_options_preserved : OptionsPreserved Fixes.all := by
 
 /-- the specification never hangs or panics, so neither does anything that refines it -/
 theorem spec_never_stuck (g : Geo) (op : Op) : (spec g op).2 ≠ .stuck ∧ (spec g op).2 ≠ .panicked := by
-  cases op <;> simp [spec] <;> (try split) <;> simp
+  cases op <;> simp only [spec] <;> (repeat' split) <;> simp
 
 /-- Invert ∘ Invert = id on the geometry of the model (any combination of repairs) … -/
 theorem invert_invert_geometry (f : Fixes) (l : LoopS) (hb : l.boundFor = l.reversed) :
@@ -231,11 +231,11 @@ theorem current_invert_invert_not_id :
 /-- D8: Distance then FindEdges — FindEdges runs with MaxResults = 1, and the options are changed -/
 theorem current_D8_findEdges_after_distance :
     (outs Fixes.none 8 .normal [.add L, .newEQ Opts.default, .call .distance 30, .call .findEdges 30]).getLast? =
-      some (.eq ⟨.list, some [0], [0], 1, .infinity, .zero⟩ { Opts.default with maxResults := 1 }) := by decide
+      some (.eq ⟨⟨.list, some [0], [0], 1, .infinity, .zero⟩, none⟩ { Opts.default with maxResults := 1 }) := by decide
 /-- D8: IsDistanceLess then Distance — Distance runs with the threshold as limit and MaxError = π -/
 theorem current_D8_distance_after_isDistanceLess :
     (outs Fixes.none 8 .normal [.add L, .newEQ Opts.default, .call (.isDistanceLess 10) 30, .call .distance 30]).getLast? =
-      some (.eq ⟨.dist, some [0], [0], 1, .val 10, .straight⟩
+      some (.eq ⟨⟨.dist, some [0], [0], 1, .val 10, .straight⟩, none⟩
               { Opts.default with maxResults := 1, distanceLimit := .val 10, maxError := .straight }) := by decide
 /-- D19: the full polygon panics on its first ContainsPoint; so does an inverted empty polygon -/
 theorem current_D19_panics :
@@ -261,8 +261,8 @@ theorem current_not_options_preserved : ¬ OptionsPreserved Fixes.none := by
     non-first update) happens to cure the D5 history as well, because a stale `pendingAdditionsPos`
     then only forces a rebuild — but `Reset` still leaves the bookkeeping inconsistent -/
 theorem single_repairs :
-    ¬ NeverStuck ⟨false, true, false, false⟩ ∧
-    outs ⟨true, false, false, false⟩ 8 .normal [.add L, .build, .reset, .add L, .query] =
+    ¬ NeverStuck ⟨false, true, false, false, false, false⟩ ∧
+    outs ⟨true, false, false, false, false, false⟩ 8 .normal [.add L, .build, .reset, .add L, .query] =
       [.id 0, .unit, .unit, .id 0, .seen [0]] := by
   constructor
   · intro h
